@@ -10,7 +10,7 @@ if [ ${#props[@]} -eq 0 ]; then props=(C01 C02 C03 C04 C05 C06 C07 C08 C09 C10 C
 cd /verif || exit 2
 export SIM_OUT_DIR=/tmp/trial-out; mkdir -p /tmp/trial-out
 if [ -n "$(git -C /repo status --porcelain --untracked-files=no)" ]; then echo "refusing: /repo has local modifications"; exit 2; fi
-if ! git -C /repo apply --check "$patch" 2>/dev/null; then if git -C /repo apply --3way "$patch" 2>/dev/null; then git -C /repo reset -q; threeway=1; else echo "patch does not apply: $patch"; exit 2; fi; fi
+if ! git -C /repo apply --check "$patch" 2>/dev/null; then if git -C /repo apply --3way "$patch" 2>/dev/null; then git -C /repo reset -q; threeway=1; else git -C /repo reset -q --hard HEAD; echo "patch does not apply: $patch"; exit 2; fi; fi
 [ "${threeway:-0}" = 1 ] || git -C /repo apply "$patch"
 trap 'git -C /repo checkout -- . ' EXIT
 for p in "${props[@]}"; do
